@@ -2731,6 +2731,12 @@ func compositeBinSlice(n *node) {
 }
 
 // doCompositeBinStruct creates and populates a struct object from a binary type.
+// isPlainAssignSrc reports whether n is the right-hand side of a plain
+// assignment (=, not :=) to an already existing variable.
+func isPlainAssignSrc(n *node) bool {
+	return n.anc != nil && n.anc.kind == assignStmt && n.anc.action == aAssign
+}
+
 func doCompositeBinStruct(n *node, hasType bool) {
 	next := getExec(n.tnext)
 	value := valueGenerator(n, n.findex)
@@ -2766,6 +2772,7 @@ func doCompositeBinStruct(n *node, hasType bool) {
 
 	frameIndex := n.findex
 	l := n.level
+	inPlace := isPlainAssignSrc(n)
 
 	n.exec = func(f *frame) bltn {
 		s := reflect.New(typ).Elem()
@@ -2776,6 +2783,8 @@ func doCompositeBinStruct(n *node, hasType bool) {
 		switch {
 		case d.Kind() == reflect.Ptr:
 			d.Set(s.Addr())
+		case inPlace && d.IsValid() && d.CanSet():
+			d.Set(s) // assignment to an existing variable: keep its identity (pointers, closures)
 		default:
 			getFrame(f, l).data[frameIndex] = s
 		}
@@ -2836,6 +2845,7 @@ func doComposite(n *node, hasType bool, keyed bool) {
 	frameIndex := n.findex
 	l := n.level
 	rt := typ.TypeOf()
+	inPlace := isPlainAssignSrc(n)
 
 	n.exec = func(f *frame) bltn {
 		a := reflect.New(rt).Elem()
@@ -2852,6 +2862,8 @@ func doComposite(n *node, hasType bool, keyed bool) {
 				break
 			}
 			d.Set(a)
+		case inPlace && d.IsValid() && d.CanSet():
+			d.Set(a) // assignment to an existing variable: keep its identity (pointers, closures)
 		default:
 			getFrame(f, l).data[frameIndex] = a
 		}
